@@ -262,7 +262,7 @@ def step (d : DS) (ws : List String) : DS × String :=
           let (_, oc) := close w
           (d, s!"log={why} data=0 drop={dropStr oc.evs}")
         | .accept lim =>
-          let src : Src := if lim then limitSrc [(bytes, e)] l else [(bytes, e)]
+          let src : Src := hSrc lim [(bytes, e)] l
           let (st, w', o1) := readFrom addData fixedCode d.st w src
           if o1.panic then ({ d with st := st }, "panic") else
           let (_, oc) := close w'
